@@ -391,6 +391,18 @@ def w_objects(ctx, rng, i):
         w = random_vector(rng, o, n)
         o.from_vector(w)
         kinds.append("random_%s" % w.dtype)
+    # (2b) the all-zero vector where it is a member's parameter vector (these classes are parametrised as increments over the
+    # identity: zero is the identity map, a vector like any other)
+    import menpo.transform as _mt5
+    if isinstance(o, (_mt5.Affine,)) and not isinstance(o, (_mt5.UniformScale, _mt5.NonUniformScale, _mt5.Rotation)) and n and \
+            not (isinstance(o, _mt5.Similarity) and not isinstance(o, _mt5.Translation) and o.n_dims == 3):
+        try:
+            z = o.from_vector(np.zeros(n))
+            kinds.append("zero_vector")
+            if tx.maxdiff(np.asarray(z.h_matrix, dtype=float), np.eye(o.n_dims + 1)) > 1e-12:
+                ctx.fail("from_vector_then_as_vector_does_not_return_the_vector", cls=cls, mech="zero_vector_is_not_the_identity_map")
+        except Exception as e:
+            ctx.fail("from_vector_refused_a_right_length_vector", cls=cls, mech="zero_vector:" + type(e).__name__)
     # (3) wrong lengths
     for m in (n - 1, n + 1, n + 3, 0):
         if m < 0 or m == n:
